@@ -20,9 +20,9 @@ empty string is `-`.
   pattern-single <hex> | pattern-multi <hex>  → ok <hex> <hex-rest> | unterminated | malformed | panic
   detect <hex-source>          → UnterminatedString | …
   span <hex-input> <offset>    → <offset> <line> <column> <length>
-  frag-fmt <term>              → s:<hex>   model of format_program on the fragment (Core/Text/Fragment)
-  frag-print <width> <term>    → s:<hex>   print (programDoc term) width
-  frag-parse <hex-source>      → ok <term> <hex-rest> | err <offset-from-end> <code> | out   (programP)
+  frag-fmt (p <term>+)         → s:<hex>   model of format_program on the fragment (Core/Text/Fragment)
+  frag-print <width> (p <term>+) → s:<hex>   print (programDoc terms) width
+  frag-parse <hex-source>      → ok (pp (p <term>+)*) <hex-rest> | err <offset-from-end> <code> | out   (programP)
       <term> ::= (l <hex-name>) | (t <hex-tuple-name | _> <field>*)    <field> ::= (u <term>) | (n <hex-label> <term>)
 -/
 open QM QM.Text
@@ -159,20 +159,22 @@ end
 
 def textStep (req : List Sx) : String :=
   match req with
-  | [.atom "frag-fmt", t] =>
-    match fragOfSx t with
-    | some t => sHex (QM.Frag.fmtFrag t)
+  | [.atom "frag-fmt", .list (.atom "p" :: ts)] =>
+    match ts.mapM fragOfSx with
+    | some ts => sHex (QM.Frag.fmtFrag ts)
     | none => "bad-request"
-  | [.atom "frag-print", w, t] =>
-    match w.asNat, fragOfSx t with
-    | some w, some t => sHex (print (QM.Frag.programDoc t) w)
+  | [.atom "frag-print", w, .list (.atom "p" :: ts)] =>
+    match w.asNat, ts.mapM fragOfSx with
+    | some w, some ts => sHex (print (QM.Frag.programDoc ts) w)
     | _, _ => "bad-request"
   | [.atom "frag-parse", .atom h] =>
     match hexToChars h with
     | none => "bad-request"
     | some cs =>
       match QM.Frag.programP cs with
-      | .ok t rest => s!"ok {fragToSx t} {charsToHex rest}"
+      | .ok stmts rest =>
+        let one (ts : List QM.Frag.T) := "(p" ++ String.join (ts.map (fun t => " " ++ fragToSx t)) ++ ")"
+        s!"ok (pp{String.join (stmts.map (fun ts => " " ++ one ts))}) {charsToHex rest}"
       | .err pos code => s!"err {pos.length} {reprStr code}"
       | .out => "out"
   | [.atom "print", w, d] =>
